@@ -252,6 +252,9 @@ func vc29dParse(seg *recordstore.Segment, headerOnly bool) (o vc29dOracle) {
 	if err != nil {
 		return vc29dOracle{coq: "Err", err: err.Error()}
 	}
+	if ps == nil { // not something the code does; the handler is still run on it
+		return vc29dOracle{coq: "Err", err: "parseSegment returned neither a segment nor an error"}
+	}
 	return vc29dOracle{coq: vc29dCqPseg(ps.start, ps.duration, ps.init), ok: true}
 }
 
